@@ -45,6 +45,9 @@ pub struct GenCfg {
     /// percent chance that a fragment on an abstract type is spread at that type (needs
     /// `__typename` in the fragment)
     pub extensions: bool,
+    pub min_enums: usize,
+    pub min_inputs: usize,
+    pub self_ref_percent: u32,
 }
 
 impl Default for GenCfg {
@@ -76,6 +79,9 @@ impl Default for GenCfg {
             var_defaults: true,
             field_args: true,
             extensions: true,
+            min_enums: 0,
+            min_inputs: 0,
+            self_ref_percent: 25,
         }
     }
 }
@@ -115,9 +121,9 @@ pub fn gen_schema(t: &mut Tape, cfg: &GenCfg) -> Schema {
     let n_ifaces = if cfg.allow_abstract { t.weighted(&[35, 45, 20]) } else { 0 };
     let n_unions = if cfg.allow_abstract { t.weighted(&[45, 40, 15]) } else { 0 };
     let n_objs = t.range(2, 5);
-    let n_enums = if cfg.allow_enums { t.weighted(&[25, 45, 20, 10]) } else { 0 };
+    let n_enums = if cfg.allow_enums { t.weighted(&[25, 45, 20, 10]).max(cfg.min_enums) } else { 0 };
     let n_scalars = if cfg.allow_custom_scalars { t.weighted(&[50, 35, 15]) } else { 0 };
-    let n_inputs = if cfg.allow_inputs { t.weighted(&[30, 30, 20, 12, 8]) } else { 0 };
+    let n_inputs = if cfg.allow_inputs { t.weighted(&[30, 30, 20, 12, 8]).max(cfg.min_inputs) } else { 0 };
 
     let mut schema = Schema {
         objects: vec![],
@@ -327,6 +333,16 @@ pub fn gen_schema(t: &mut Tape, cfg: &GenCfg) -> Schema {
                 names::leaf_name(t, &mut scope, nc)
             };
             fields.push(FieldDef { name, ty, args: vec![], deprecated: gen_dep(t), description: gen_desc(t) });
+        }
+        if !is_root && t.chance(cfg.self_ref_percent) {
+            // a terminable self reference (enables recursive fragments)
+            let name = names::segment_name(t, &mut scope, nc);
+            let depth = t.weighted(&[60, 40]);
+            let mut nonnull = gen_nonnull(t, depth);
+            if depth == 0 {
+                nonnull[0] = false;
+            }
+            fields.push(FieldDef { name, ty: TypeExpr::new(Named::Object(oi), nonnull), args: vec![], deprecated: None, description: None });
         }
         // every non-root object needs at least one leaf field so selections can terminate
         if !is_root && !fields.iter().any(|f| !f.ty.named.is_composite()) {
